@@ -91,7 +91,8 @@ def dict_to_stix2(stix_dict, allow_custom=False, interoperability=False, version
             # be parsed into STIX object, returned as is
             return stix_dict
         extensions = stix_dict.get('extensions')
-        if not isinstance(extensions, collections.abc.Mapping):
+        if version == "2.0" or not isinstance(extensions, collections.abc.Mapping):
+            # (STIX 2.0 has no extension definitions.)
             extensions = {}
         for key_id, ext_def in extensions.items():
             if (
